@@ -2,7 +2,9 @@
 //! (Core, focused Core, AxCut, linearized AxCut, assembly of the three back ends) for one source file.
 //! `determinism <seed> <n> <out>`: for each program compare (a) two compilations in this process,
 //! (b) a compilation after `j` unrelated compilations in this process, (c) K fresh child processes
-//! (fresh hash seeds); byte-identical up to the numbering of generated labels (`lab<n>`, `<Type>_<n>`).
+//! (fresh hash seeds); byte-identical up to the numbering of generated labels (`lab<n>`, `<Type>_<n>`);
+//! (d) the stages handed out by `driver::Driver` for 5 request orders x 2 rounds (and after another file) and the assembly
+//! files it writes = the stages computed by the crate functions directly.
 use crate::{pipe, sexp::quote};
 use axcut2backend::coder::compile;
 use printer::Print;
@@ -84,6 +86,81 @@ pub fn normalize_labels(s: &str) -> String {
     out
 }
 
+
+// ------------------------------------------------------------------------------------------------
+// (d) the `driver::Driver` (what `scc` runs): every stage it hands out must be the stage computed by the
+// crate functions directly, whatever other stages (or other files) were requested from the same Driver before,
+// and the assembly FILES it writes must be the printed routines.  Stage caches keyed by path are process history.
+// ------------------------------------------------------------------------------------------------
+const DRIVER_STAGES: [&str; 5] = ["compiled", "uniquified", "focused", "shrunk", "linearized"];
+fn driver_stage(drv: &mut driver::Driver, p: &std::path::PathBuf, st: &str) -> Result<String, String> {
+    let e = |e: driver::result::DriverError| format!("driver error: {e:?}");
+    Ok(match st {
+        "compiled" => drv.compiled(p).map_err(e)?.print_to_string(None),
+        "uniquified" => drv.uniquified(p).map_err(e)?.print_to_string(None),
+        "focused" => drv.focused(p).map_err(e)?.print_to_string(None),
+        "shrunk" => drv.shrunk(p).map_err(e)?.print_to_string(None),
+        "linearized" => drv.linearized(p).map_err(e)?.print_to_string(None),
+        _ => unreachable!(),
+    })
+}
+/// the five stages computed without the Driver
+fn direct_stages(text: &str) -> Result<Vec<(&'static str, String)>, String> {
+    let parsed = fun::parser::parse_module(text).map_err(|e| format!("parse: {e:?}"))?;
+    let checked = parsed.check().map_err(|e| format!("check: {e:?}"))?;
+    let core = fun2core::program::compile_prog(checked);
+    let mut uniq = core.clone();
+    uniq.uniquify();
+    let focused = core.clone().focus();
+    let shrunk = core2axcut::program::shrink_prog(focused.clone());
+    let mut lin = shrunk.clone();
+    lin.linearize();
+    Ok(vec![("compiled", core.print_to_string(None)), ("uniquified", uniq.print_to_string(None)), ("focused", focused.print_to_string(None)),
+            ("shrunk", shrunk.print_to_string(None)), ("linearized", lin.print_to_string(None))])
+}
+/// None = every request order / history gives the direct stages; Some(description) otherwise
+fn driver_history(p: &std::path::PathBuf, text: &str, other: Option<&std::path::PathBuf>, asm_ref: &[(String, String)], k: usize) -> Option<String> {
+    let p = p.clone(); let text = text.to_string(); let other = other.cloned(); let asm_ref = asm_ref.to_vec();
+    let r = std::panic::catch_unwind(move || -> Option<String> {
+        let direct = match direct_stages(&text) { Ok(d) => d, Err(_) => return None };
+        let get = |name: &str| direct.iter().find(|(n, _)| *n == name).map(|(_, t)| t.clone()).unwrap();
+        let orders: [[usize; 5]; 5] = [[0, 1, 2, 3, 4], [4, 3, 2, 1, 0], [1, 0, 2, 3, 4], [4, 0, 3, 1, 2], [2, 1, 4, 0, 3]];
+        for (oi, order) in orders.iter().enumerate() {
+            let mut drv = driver::Driver::new();
+            // every third program: the Driver has served another file before
+            if oi == (k % 5) { if let Some(o) = &other { for st in DRIVER_STAGES { let _ = driver_stage(&mut drv, o, st); } } }
+            for round in 0..2 {
+                for &i in order {
+                    let st = DRIVER_STAGES[i];
+                    match driver_stage(&mut drv, &p, st) {
+                        Ok(t) => if t != get(st) { return Some(format!("driver stage {st} (request order {oi}, round {round}) differs from the directly computed stage")); },
+                        Err(e) => return Some(format!("driver stage {st} (request order {oi}): {e}")),
+                    }
+                }
+            }
+        }
+        // the assembly files written by the Driver, after the stages were requested in a non-pipeline order
+        let mut drv = driver::Driver::new();
+        for &i in &orders[3] { let _ = driver_stage(&mut drv, &p, DRIVER_STAGES[i]); }
+        let stem = p.file_name().unwrap().to_string_lossy().replace(".sc", ".asm");
+        for (stage, dir) in [("x86_64", driver::paths::Paths::x86_64_assembly_dir()), ("aarch64", driver::paths::Paths::aarch64_assembly_dir()), ("rv64", driver::paths::Paths::risc_v_assembly_dir())] {
+            let Some((_, reference)) = asm_ref.iter().find(|(s, _)| s == stage) else { continue };   // the back end panicked on this program (capacity / no print)
+            let f = dir.join(&stem);
+            let _ = std::fs::remove_file(&f);
+            let res = match stage {
+                "x86_64" => drv.print_x86_64(&p, driver::PrintMode::Textual).map(|_| ()),
+                "aarch64" => drv.print_aarch64(&p, driver::PrintMode::Textual).map(|_| ()),
+                _ => drv.print_rv_64(&p, driver::PrintMode::Textual),
+            };
+            if let Err(e) = res { return Some(format!("driver print_{stage}: {e:?}")); }
+            let written = std::fs::read_to_string(&f).unwrap_or_else(|e| format!("<no file {}: {e}>", f.display()));
+            if normalize_labels(&written) != normalize_labels(reference) { return Some(format!("assembly file written by the driver for {stage} differs from the printed routine")); }
+        }
+        None
+    });
+    match r { Ok(v) => v, Err(_) => Some("driver panicked where the direct pipeline did not".to_string()) }
+}
+
 fn is_asm(stage: &str) -> bool { stage == "x86_64" || stage == "aarch64" || stage == "rv64" }
 
 pub fn cmd_stages_text(path: &str) {
@@ -163,6 +240,16 @@ pub fn cmd_determinism(seed: u64, n: usize, out: &mut dyn Write, dirs: &[String]
             if o != reference {
                 verdict = format!("(viol {})", quote(&format!("class=nondeterministic-output {} differs at stage {}", what, first_diff_stage(&reference, &o))));
                 break;
+            }
+        }
+        if !verdict.starts_with("(viol") {
+            // (d) Driver level; relative target_scc/ paths of the Driver resolve below the work directory
+            let _ = std::env::set_current_dir(&work);
+            let other = if k > 0 { Some(work.join("other.sc")) } else { None };
+            if let Some(o) = &other { std::fs::write(o, &sources[k - 1].1).unwrap(); }
+            let asm_ref: Vec<(String, String)> = stages_text(text).unwrap_or_default().into_iter().filter(|(s, _)| is_asm(s)).collect();
+            if let Some(d) = driver_history(&p, text, other.as_ref(), &asm_ref, k) {
+                verdict = format!("(viol {})", quote(&format!("class=nondeterministic-output driver-history: {d}")));
             }
         }
         if verdict.starts_with("(viol") {
